@@ -9,9 +9,8 @@
       attr_fact_spec   attr_fact s = if is_QName s then Some (name_split s) else None
                        (also through the [xmlns] / [xmlns:p] alternative of the production)
       pi_fact_spec     pi_fact s = if forallb NC s && negb (is_xml_ci s) then Some s else None
-      ref_fact_shape   ref_fact s = true <-> "&s;" starts with a reference of the grammar:
-                       s = n or s = n;tail with n a run of name characters, or
-                       s = #digits / #xhex, possibly followed by ;tail
+      ref_fact_spec    ref_fact s = forallb NC s   ("&s;" is, as a whole, one reference to a general
+                       entity named s: after repair D64 of create_entity_reference)
 
     The proofs use the two halves of the C04 ladder: the production re-parses what is written
     (Proofs/DisplayLex.v, Proofs/DisplayElem.v) and a successful run has the shape of the
@@ -216,7 +215,7 @@ Proof.
     rewrite T in Hok. apply pi_target_ok_iff in Hok. destruct Hok as [H1 H2]. rewrite H1, H2 in E. discriminate.
 Qed.
 
-(** ** reference: "&s;" -- only success is asked, the rest is not looked at *)
+(** ** reference: "&s;" is one entity reference whose name is s *)
 Lemma inv_reference_str s t r : S (NT nt_reference) s t r ->
   exists x, eval_tree t = VReference x /\ reference_ok x /\ s = d_reference x ++ r.
 Proof.
@@ -229,20 +228,20 @@ Proof.
     + eexists (RefChar _ Hex). split; [reflexivity|]. split; [split; assumption|]. cbn [d_reference app]. rewrite <- app_assoc. reflexivity.
 Qed.
 
-Theorem ref_fact_shape : forall s,
-  ref_fact s = true <-> exists x r, reference_ok x /\ 38 :: s ++ [59] = d_reference x ++ r.
+Theorem ref_fact_spec : forall s, ref_fact s = forallb NC s.
 Proof.
-  intros s. unfold ref_fact, succeeded. cbn [app]. split.
-  - destruct (parse_reference (38 :: s ++ [59])) as [[x r]| | |] eqn:E; try discriminate. intros _.
-    apply parse_with_ok in E. destruct E as [t [Hr Hv]]. apply run_succ in Hr. apply inv_reference_str in Hr.
-    destruct Hr as [x' [Ex [Hok Hs]]]. exists x', r. split; [exact Hok | exact Hs].
-  - intros [x [r [Hok E]]]. rewrite E. unfold parse_reference.
-    rewrite (parse_with_yields nt_reference _ (d_reference x ++ r) (VReference x) r x (yields_reference x r Hok) eq_refl).
-    reflexivity.
+  intros s. unfold ref_fact. destruct (forallb NC s) eqn:E.
+  - assert (Hp : parse_reference ([38] ++ s ++ [59]) = POk (RefEntity s, [])).
+    { unfold parse_reference. apply (parse_with_yields nt_reference _ _ (VReference (RefEntity s)) []); [|reflexivity].
+      pose proof (yields_reference (RefEntity s) []) as Hy. cbn [d_reference] in Hy. rewrite app_nil_r in Hy.
+      apply Hy. apply name_ok_NC. exact E. }
+    rewrite Hp. cbn [whole]. apply Expansion.str_eqb_refl.
+  - destruct (whole (parse_reference ([38] ++ s ++ [59]))) as [[num r|v]|] eqn:W; try reflexivity.
+    destruct (Peg.str_eqb v s) eqn:T; [|reflexivity]. exfalso.
+    apply Expansion.str_eqb_eq in T. subst v. apply whole_some in W. apply parse_with_ok in W. destruct W as [t [Hr Hv]].
+    apply run_succ in Hr. apply inv_reference in Hr. destruct Hr as [x [Ex Hok]]. rewrite Ex in Hv. injection Hv as ->.
+    cbn [reference_ok] in Hok. apply name_ok_NC in Hok. congruence.
 Qed.
 
 Lemma ref_fact_NC s : forallb NC s = true -> ref_fact s = true.
-Proof.
-  intros H. apply ref_fact_shape. exists (RefEntity s), []. split; [apply name_ok_NC; exact H|].
-  cbn [d_reference]. rewrite app_nil_r. reflexivity.
-Qed.
+Proof. intros H. rewrite ref_fact_spec. exact H. Qed.
